@@ -230,8 +230,8 @@ def check(pid, tier):
         extra_cov={"unions": len(payloads), "bound": "union arity <= 3 (quick) / <= 4 (thorough), members from 15 kinds; bounded, stated",
                    "explanation": "per union: dec_strict (the property), dec_staged (regression contract pinning the listed findings), enc (exact-class members without containers)"},
         trusted={"member conversions are uninterpreted (induction hypothesis); enc: a conforming value has exactly the class of one member, a method exists iff the class has it, builtin str is total",
-                 "S18 precondition: type arguments are hashable; arities 0..4 of not_none_type_arg (each a full proof; larger arities not covered)"},
-        functions=["helpers.not_none_type_arg (S18, real AST)", "UnionUnpackerBuilder._add_body", "LiteralUnpackerBuilder._add_body", "pack_union", "pack_literal", "expr_or_maybe_none (through the texts they produce)"],
+                 "S18+S19 precondition: type arguments are hashable; arities 0..4 (each a full proof; larger arities not covered); S19: typing.get_args(typ) returns a tuple, is_union is uninterpreted and does not raise"},
+        functions=["helpers.not_none_type_arg (S18, real AST)", "helpers.is_optional (S19, real AST)", "UnionUnpackerBuilder._add_body", "LiteralUnpackerBuilder._add_body", "pack_union", "pack_literal", "expr_or_maybe_none (through the texts they produce)"],
         crashes=crashes,
     )
 
